@@ -281,6 +281,18 @@ Section OPES.
     fold_left (fun ws c => opes_round c ws) rounds (repeat [] n).
 End OPES.
 
+(* the sums of weights that normalise the OPES bias: at a deposition step every walker contributes the weight of
+   its new kernel; replica 0 adds the contributions of replicas 1, 2, .. to its own in this order and sends the
+   total to everybody; every walker adds the total to its running sum (the same code runs for the sum of the
+   squared weights) *)
+Definition opes_sum_round {A : Type} (G : GrpOps A) (s : A) (hs : list A) : A :=
+  match hs with
+  | [] => s
+  | h0 :: others => gadd G s (fold_left (gadd G) others h0)
+  end.
+Definition opes_sums {A : Type} (G : GrpOps A) (s : A) (rounds : list (list A)) : A :=
+  fold_left (opes_sum_round G) rounds s.
+
 (* ------------------------------------------------------------------------------------------- *)
 (* (b) file-based multiple-walker metadynamics: one writer, one reader                          *)
 (* ------------------------------------------------------------------------------------------- *)
@@ -299,36 +311,49 @@ Record writer := mkWr {
   w_name : Z;            (* output prefix generation = the names of state file and hills file in the list file *)
   w_state : sfile;       (* content of the state file of that name (written to .tmp, then renamed) *)
   w_file : list hill;    (* records written to the hills file of that name since it was (re)opened *)
-  w_vis : Z              (* how many complete records of that file a reader finds (any prefix) *)
+  w_vis : Z;             (* how many complete records of that file a reader finds (any prefix) *)
+  w_lost : list hill;    (* records of a hills file that has just been removed and that the state file in place does
+                            not cover yet (between the two halves of write_state_to_replicas); nobody can read them *)
+  w_sok : bool           (* the state file is completely visible to a reader (false: it sees a proper prefix of it) *)
 }.
 
-Definition wr_init : writer := mkWr [] false 0 (mkSF 0 []) [] 0.
+Definition wr_init : writer := mkWr [] false 0 (mkSF 0 []) [] 0 [] true.
 
 (* update_bias(): add_hill + write_hill to the replica hills file (buffered) *)
 Definition wr_deposit (w : writer) (h : hill) : writer :=
-  mkWr (w_D w ++ [h]) (w_reg w) (w_name w) (w_state w) (w_file w ++ [h]) (w_vis w).
+  mkWr (w_D w ++ [h]) (w_reg w) (w_name w) (w_state w) (w_file w ++ [h]) (w_vis w) (w_lost w) (w_sok w).
 
 (* what a reader sees of the hills file: flushes, page write-back, network file systems... any prefix *)
 Definition wr_vis (w : writer) (c : Z) : writer :=
   mkWr (w_D w) (w_reg w) (w_name w) (w_state w) (w_file w)
-       (Z.max 0 (Z.min c (Z.of_nat (length (w_file w))))).
+       (Z.max 0 (Z.min c (Z.of_nat (length (w_file w))))) (w_lost w) (w_sok w).
 
-(* write_state_to_replicas(): write_replica_state_file() then reopen_replica_buffer_file() *)
+(* ... and of the state file: all of it, or a proper prefix *)
+Definition wr_svis (w : writer) (b : bool) : writer :=
+  mkWr (w_D w) (w_reg w) (w_name w) (w_state w) (w_file w) (w_vis w) (w_lost w) b.
+
+(* read_hill_template_(): a record with h_it <= state_file_step is parsed and dropped *)
+Definition keep (S : Z) (h : hill) : bool := S <? hit h.
+
+(* write_state_to_replicas() as one event: the hills file is restarted and the state file written *)
 Definition wr_state (w : writer) (S : Z) : writer :=
-  mkWr (w_D w) (w_reg w) (w_name w) (mkSF S (w_D w)) [] 0.
+  mkWr (w_D w) (w_reg w) (w_name w) (mkSF S (w_D w)) [] 0 [] true.
 
-(* the same in its two stages, as a reader on another machine may find them: the state file has been
-   renamed into place (a) but the old hills file is still there; then the hills file is removed and
-   created again (b) *)
-Definition wr_state_a (w : writer) (S : Z) : writer :=
-  mkWr (w_D w) (w_reg w) (w_name w) (mkSF S (w_D w)) (w_file w) (w_vis w).
+(* its two halves, as a reader on another machine may find them.
+   (b) reopen_replica_buffer_file(): the hills file is removed and created again; what it held and the state
+       file in place does not cover is, for the moment, nowhere on disk;
+   (a) write_replica_state_file(): the state file is renamed into place.
+   Since repair 8 the code runs (b) then (a); before, (a) then (b). *)
 Definition wr_state_b (w : writer) : writer :=
-  mkWr (w_D w) (w_reg w) (w_name w) (w_state w) [] 0.
+  mkWr (w_D w) (w_reg w) (w_name w) (w_state w) [] 0
+       (w_lost w ++ filter (keep (sf_step (w_state w))) (w_file w)) (w_sok w).
+Definition wr_state_a (w : writer) (S : Z) : writer :=
+  mkWr (w_D w) (w_reg w) (w_name w) (mkSF S (w_D w)) (w_file w) (w_vis w) [] true.
 
 (* setup_output() at the start of a run (first one, restart, new output prefix): new hills file,
    state file, list file, record in the registry *)
 Definition wr_setup (w : writer) (S : Z) (newname : bool) : writer :=
-  mkWr (w_D w) true (if newname then w_name w + 1 else w_name w) (mkSF S (w_D w)) [] 0.
+  mkWr (w_D w) true (if newname then w_name w + 1 else w_name w) (mkSF S (w_D w)) [] 0 [] true.
 
 (* the mirror bias that a reader keeps for one peer (replicas[ir]) *)
 Record mirror := mkM {
@@ -345,9 +370,6 @@ Definition m_new : mirror := mkM None false false 0 0 [].
 Definition name_is (o : option Z) (n : Z) : bool :=
   match o with Some k => k =? n | None => false end.
 
-(* read_hill_template_(): a record with h_it <= state_file_step is parsed and dropped *)
-Definition keep (S : Z) (h : hill) : bool := S <? hit h.
-
 (* records a .. b-1 of a file *)
 Definition sub (l : list hill) (a b : Z) : list hill :=
   firstn (Z.to_nat (b - a)) (skipn (Z.to_nat a) l).
@@ -363,7 +385,9 @@ Definition share (fix1 fix2 : bool) (w : writer) (om : option mirror) : option m
   (* ... and the list file: a new state file name schedules a reread *)
   let m1 := if name_is (m_name m0) (w_name w) then m0
             else mkM (Some (w_name w)) false (m_has m0) (m_pos m0) (m_S m0) (m_cont m0) in
-  (* read_replica_files(): (repair 2) compare the step recorded in the state file *)
+  (* read_replica_files(): (repair 9) a state file that is not all there: nothing of this replica is read now *)
+  if negb (w_sok w) then Some m1 else
+  (* (repair 2) compare the step recorded in the state file *)
   let m2 := if fix2 && m_has m1 && m_sync m1 && negb (sf_step (w_state w) =? m_S m1)
             then mkM (m_name m1) false (m_has m1) (m_pos m1) (m_S m1) (m_cont m1) else m1 in
   (* (re)read the state file if necessary: grids replaced, hills list pruned *)
@@ -391,8 +415,9 @@ Inductive pev : Type :=
 | PDeposit (h : hill)                (* writer deposits a hill *)
 | PVis (c : Z)                       (* the first c complete records of the writer's hills file become what a reader sees *)
 | PWState (St : Z)                   (* writer: write_state_to_replicas() at step S *)
-| PWStateA (St : Z)                  (* writer: first half of it (state file renamed, old hills file still there) *)
-| PWStateB                           (* writer: second half (hills file removed and created again) *)
+| PWStateA (St : Z)                  (* writer: the half of it that renames the state file into place *)
+| PWStateB                           (* writer: the half that removes the hills file and creates it again *)
+| PSVis (b : bool)                   (* the reader sees all of the writer's state file (true) or a proper prefix *)
 | PSetup (St : Z) (newname : bool)   (* writer: setup_output() at step S, possibly with a new output prefix *)
 | RShare                             (* reader: replica_share() *)
 | RWState                            (* reader: its own write_state_to_replicas() *)
@@ -408,6 +433,7 @@ Definition pstep (fix1 fix2 : bool) (st : pstate) (e : pev) : pstate :=
   | PWState s => (wr_state w s, m)
   | PWStateA s => (wr_state_a w s, m)
   | PWStateB => (wr_state_b w, m)
+  | PSVis b => (wr_svis w b, m)
   | PSetup s nn => (wr_setup w s nn, m)
   | RShare => (w, share fix1 fix2 w m)
   | RWState => (w, m_unsync m)
@@ -419,32 +445,36 @@ Definition prun (fix1 fix2 : bool) (es : list pev) (st : pstate) : pstate :=
 
 Definition pinit : pstate := (wr_init, None).
 
-(* every record of the hills file is later than the state file: false only between the two halves of a
-   state-file rewrite *)
+(* every record of the hills file is later than the state file (false only in the old protocol, between the
+   renaming of the state file and the restart of the hills file) *)
 Definition file_fresh (w : writer) : bool :=
   forallb (fun h => sf_step (w_state w) <? hit h) (w_file w).
 
 Definition steps_ok (w : writer) (s : Z) : bool :=
   (sf_step (w_state w) <=? s) && forallb (fun x => hit x <=? s) (w_D w).
 
-(* What is assumed of a trace.  Writer side (facts about how a walker numbers its own steps and orders its own
-   actions): a hill is deposited at a later step than the state file in place; a state file is written at a
-   step not before any hill in it and not before the previous state file; between the two halves of a
-   state-file rewrite the writer does nothing else.  Reader side (strict = true only): the reader does not
-   exchange between the two halves of the peer's state-file rewrite. *)
-Definition ev_ok (strict : bool) (w : writer) (e : pev) : bool :=
+Definition is_nil (l : list hill) : bool := match l with [] => true | _ => false end.
+
+(* What is assumed of a trace: facts about how a walker numbers its own steps and orders its own actions.
+   A hill is deposited at a later step than the state file in place, and not in the middle of a state-file
+   rewrite; a state file is written at a step not before any hill in it and not before the previous state file.
+   proto = true: write_state_to_replicas() restarts the hills file first and then renames the state file
+   (PWStateB, PWStateA; the code since repair 8); proto = false: the other way round (the code before).
+   NOTHING is assumed of the reader: it may exchange at any moment, also between the two halves. *)
+Definition ev_ok (proto : bool) (w : writer) (e : pev) : bool :=
   match e with
-  | PDeposit h => file_fresh w && (sf_step (w_state w) <? hit h)
-  | PWState s | PSetup s _ | PWStateA s => file_fresh w && steps_ok w s
-  | PWStateB => negb (file_fresh w) || match w_file w with [] => true | _ => false end
-  | RShare => negb strict || file_fresh w
+  | PDeposit h => is_nil (w_lost w) && file_fresh w && (sf_step (w_state w) <? hit h)
+  | PWState s | PSetup s _ => is_nil (w_lost w) && file_fresh w && steps_ok w s
+  | PWStateB => if proto then file_fresh w else negb (file_fresh w) || is_nil (w_file w)
+  | PWStateA s => if proto then is_nil (w_file w) && steps_ok w s
+                  else is_nil (w_lost w) && file_fresh w && steps_ok w s
   | _ => true
   end.
 
-Fixpoint trace_ok (strict fix1 fix2 : bool) (es : list pev) (st : pstate) : bool :=
+Fixpoint trace_ok (proto fix1 fix2 : bool) (es : list pev) (st : pstate) : bool :=
   match es with
   | [] => true
-  | e :: tl => ev_ok strict (fst st) e && trace_ok strict fix1 fix2 tl (pstep fix1 fix2 st e)
+  | e :: tl => ev_ok proto (fst st) e && trace_ok proto fix1 fix2 tl (pstep fix1 fix2 st e)
   end.
 
 (* l1 is a prefix of l2 *)
@@ -457,4 +487,73 @@ Fixpoint prefixb (l1 l2 : list hill) : bool :=
 
 (* everything of the peer that the reader can see: the state file and the visible records *)
 Definition visible (w : writer) : list hill :=
-  sf_hills (w_state w) ++ firstn (Z.to_nat (w_vis w)) (w_file w).
+  if w_sok w then sf_hills (w_state w) ++ firstn (Z.to_nat (w_vis w)) (w_file w) else [].
+
+(* ------------------------------------------------------------------------------------------- *)
+(* (c) n walkers, each both writer and reader of every other one                                *)
+(* ------------------------------------------------------------------------------------------- *)
+
+(* a walker: what it leaves in the file system, and its mirror biases indexed by the peer's number
+   (its own slot is never used) *)
+Record wk := mkWk { k_w : writer; k_m : list (option mirror) }.
+Definition sys := list wk.
+
+Inductive sev : Type :=
+| SDeposit (i : nat) (h : hill)
+| SVis (i : nat) (c : Z)
+| SSVis (i : nat) (b : bool)
+| SWState (i : nat) (St : Z)             (* write_state_to_replicas() of walker i as one event *)
+| SWStateB (i : nat)                     (* its first half: hills file restarted *)
+| SWStateA (i : nat) (St : Z)            (* its second half: state file renamed; mirrors of i scheduled for a reread *)
+| SSetup (i : nat) (St : Z) (newname : bool)
+| SShare (i : nat)                       (* replica_share() of walker i: every registered peer is read *)
+| SRestart (i : nat).                    (* new process: the mirrors of walker i are gone *)
+
+(* read_replica_files(): the loop over the peers; j = number of the peer at the head of the lists *)
+Fixpoint share_all (i : nat) (ws : list writer) (j : nat) (ms : list (option mirror)) : list (option mirror) :=
+  match ws, ms with
+  | w :: wt, m :: mt => (if Nat.eqb j i then m else share true true w m) :: share_all i wt (S j) mt
+  | _, _ => []
+  end.
+
+Definition on_writer (f : writer -> writer) (x : wk) : wk := mkWk (f (k_w x)) (k_m x).
+Definition unsync_all (x : wk) : wk := mkWk (k_w x) (map m_unsync (k_m x)).
+
+Definition sys_step (s : sys) (e : sev) : sys :=
+  match e with
+  | SDeposit i h => upd_nth i (on_writer (fun w => wr_deposit w h)) s
+  | SVis i c => upd_nth i (on_writer (fun w => wr_vis w c)) s
+  | SSVis i b => upd_nth i (on_writer (fun w => wr_svis w b)) s
+  | SWState i t => upd_nth i (fun x => unsync_all (on_writer (fun w => wr_state w t) x)) s
+  | SWStateB i => upd_nth i (on_writer wr_state_b) s
+  | SWStateA i t => upd_nth i (fun x => unsync_all (on_writer (fun w => wr_state_a w t) x)) s
+  | SSetup i t nn => upd_nth i (fun x => unsync_all (on_writer (fun w => wr_setup w t nn) x)) s
+  | SShare i => upd_nth i (fun x => mkWk (k_w x) (share_all i (map k_w s) 0 (k_m x))) s
+  | SRestart i => upd_nth i (fun x => mkWk (k_w x) (map (fun _ => None) (k_m x))) s
+  end.
+
+Definition sys_run (es : list sev) (s : sys) : sys := fold_left sys_step es s.
+Definition sys_init (n : nat) : sys := repeat (mkWk wr_init (repeat None n)) n.
+
+(* what walker r holds for walker p, together with what p has left in the file system *)
+Definition pair_of (s : sys) (r p : nat) : pstate :=
+  (k_w (nth p s (mkWk wr_init [])), nth p (k_m (nth r s (mkWk wr_init []))) None).
+
+(* the events of the system as the pair (reader r, peer p) lives them *)
+Definition pproj (r p : nat) (e : sev) : list pev :=
+  match e with
+  | SDeposit i h => if Nat.eqb i p then [PDeposit h] else []
+  | SVis i c => if Nat.eqb i p then [PVis c] else []
+  | SSVis i b => if Nat.eqb i p then [PSVis b] else []
+  | SWState i t => (if Nat.eqb i p then [PWState t] else []) ++ (if Nat.eqb i r then [RWState] else [])
+  | SWStateB i => if Nat.eqb i p then [PWStateB] else []
+  | SWStateA i t => (if Nat.eqb i p then [PWStateA t] else []) ++ (if Nat.eqb i r then [RWState] else [])
+  | SSetup i t nn => (if Nat.eqb i p then [PSetup t nn] else []) ++ (if Nat.eqb i r then [RWState] else [])
+  | SShare i => if Nat.eqb i r then [RShare] else []
+  | SRestart i => if Nat.eqb i r then [RRestart] else []
+  end.
+
+(* every walker follows the writer-side protocol: checked pair by pair on the projected traces *)
+Definition sys_ok (n : nat) (es : list sev) : bool :=
+  forallb (fun r => forallb (fun p => Nat.eqb r p || trace_ok true true true (flat_map (pproj r p) es) pinit)
+                            (seq 0 n)) (seq 0 n).
